@@ -4,6 +4,6 @@ CONSTANTS
   MaxMembers = 2
   AnyOrder = FALSE
   RepeatConflictIsError = TRUE
-INVARIANTS TypeOK ImplsAreDocumented FoldIsUnroll RejectedIffFaulty NeverPanics
+INVARIANTS TypeOK NeverPanics
 PROPERTY Terminates
 CHECK_DEADLOCK FALSE
